@@ -9,8 +9,9 @@
    tag, a tree read as a message has a registered tag, the buffer looks for exactly those) -
    so for the concrete parser the framing theorem needs only (i).  (i) is decidable
    (spelling_is_decidable) and it is PROVED (Buffer/Spelling.v) of EVERY text the concrete parser
-   accepts as a message, however it is spelled, provided it begins with the opener of a registered
-   tag and ends with '>' (accepted_text_is_a_spelling): no proper prefix of such a text is a complete
+   accepts as a message, however it is spelled, provided it begins with '<' (and is not a declaration)
+   and ends with '>' (accepted_element_text_is_a_spelling; that it then begins with the opener of a
+   registered tag is a_document_begins_with_its_root_tag): no proper prefix of such a text is a complete
    document - once the root element has closed the lexer accepts blanks only, and the text ends
    with '>' -, and a complete document never ends in two '>' (the step that completes it leaves a
    mode in which a tag is being closed, and '>' never leads into such a mode).  The canonical text
@@ -22,7 +23,7 @@
 From Coq Require Import List NArith Bool Arith.
 Import ListNotations.
 From Indi Require Import Base.Sx Buffer.Model Buffer.Props Buffer.Junk Buffer.Framing Buffer.Run Buffer.Concrete Buffer.Spelling
-  Msg.Registry Msg.RegOk Msg.Equality Msg.Model Msg.Codec Xml.Lex Xml.Print Generated.RegistryData.
+  Msg.Registry Msg.RegOk Msg.Equality Msg.Model Msg.Codec Xml.Lex Xml.Print Xml.Opener Xml.FirstTag Generated.RegistryData.
 
 (* A stream l = junk, message, junk, message, ... (junk free of known-tag openers:
    whitespace, XML declarations, anything else) cut into ANY pieces: every process()
@@ -126,6 +127,23 @@ Theorem accepted_text_is_a_spelling : forall thr (m : str) M tag rest,
 Proof. exact Buffer.Spelling.accepted_text_is_a_spelling. Qed.
 Print Assumptions accepted_text_is_a_spelling.
 
+(* ... and the tag need not be assumed: a text beginning with '<' (not a declaration), read as a message, begins
+   with the opener of a registered tag - the name read after the first '<' is the name of the first start tag,
+   which is the root of the tree built (Xml/FirstTag.v), and a tree read as a message has a registered tag *)
+Theorem a_document_begins_with_its_root_tag : forall r t,
+  status (lex (60%N :: r)) = 0%N -> build (rev (toks (lex (60%N :: r)))) [] = Some t ->
+  exists rest, r = tree_tag t ++ rest.
+Proof. exact Xml.FirstTag.document_begins_with_its_root_tag. Qed.
+Print Assumptions a_document_begins_with_its_root_tag.
+
+Theorem accepted_element_text_is_a_spelling : forall thr (m : str) M c r,
+  concrete_parse m = PMsg M -> m = LT :: c :: r -> c <> 63%N ->
+  nth (length m - 1) m 0%N = GT ->
+  (forall t, thr = Some t -> length m <= t) ->
+  spelling msg concrete_parse (rbuffer_tags live_registry) thr M m.
+Proof. exact Buffer.Spelling.accepted_element_text_is_a_spelling. Qed.
+Print Assumptions accepted_element_text_is_a_spelling.
+
 (* C02 for the concrete parser and every spelling: a stream of accepted texts with any opener-free junk between
    them, cut into ANY pieces - all calls terminate, exactly the messages are delivered, in order, each once ... *)
 Theorem any_accepted_stream_is_framed : forall thr pieces l,
@@ -166,5 +184,19 @@ Example c02_foreign_spelling_nonvacuous :
 Proof.
   cbv zeta. eexists. unfold accepted_spelling. split; [vm_compute; reflexivity|]. split; [|split; [vm_compute; reflexivity|]].
   - exists (s2l "getProperties"), (s2l "   version='1.7'  device='d&#233;v' ></getProperties >"). split; [vm_compute; tauto|reflexivity].
+  - intros t [= <-]. vm_compute. repeat constructor.
+Qed.
+
+(* the hypotheses of accepted_element_text_is_a_spelling are met by the same foreign spelling, with nothing said about its tag *)
+Example c02_element_text_nonvacuous :
+  let m := s2l "<getProperties   version='1.7'  device='d&#233;v' ></getProperties >" in
+  exists M, spelling msg concrete_parse (rbuffer_tags live_registry) (Some 2048) M m.
+Proof.
+  cbv zeta. eexists.
+  eapply (accepted_element_text_is_a_spelling (Some 2048) _ _ 103%N (List.tl (List.tl (s2l "<getProperties   version='1.7'  device='d&#233;v' ></getProperties >")))).
+  - vm_compute. reflexivity.
+  - vm_compute. reflexivity.
+  - discriminate.
+  - vm_compute. reflexivity.
   - intros t [= <-]. vm_compute. repeat constructor.
 Qed.
